@@ -14,4 +14,5 @@ func genAll(repo string) {
 	genNJ(repo)
 	genPyramid(repo)
 	genImageBlk(repo)
+	genBlockParse(repo)
 }
